@@ -224,6 +224,18 @@ static std::string content_guard(const Exec& x, const std::string& rel)
 	return rel;
 }
 
+// file selector of an op: an explicit sub path ("sub") on disk d if it exists, else the f-th live file of disk d
+static std::string sel(Exec& x, const Json& op)
+{
+	if (op.has("sub")) {
+		std::string rel = x.disk_top(op.num("d")) + "/" + op.str("sub");
+		struct stat st;
+		if (lstat(x.sb.abs(rel).c_str(), &st) == 0 && S_ISREG(st.st_mode)) return rel;
+		return "";
+	}
+	return x.pick_file(op.num("d"), op.num("f"));
+}
+
 static void op_create_h(Exec& x, const Json& op, int)
 {
 	std::string top = x.disk_top(op.num("d"));
@@ -246,7 +258,7 @@ static void op_create_h(Exec& x, const Json& op, int)
 
 static void op_overwrite_h(Exec& x, const Json& op, int)
 {
-	std::string rel = x.pick_file(op.num("d"), op.num("f"));
+	std::string rel = sel(x, op);
 	if (rel.empty()) return;
 	int64_t s, ns;
 	x.sb.next_stamp(s, ns, op.num("zns") != 0);
@@ -255,7 +267,7 @@ static void op_overwrite_h(Exec& x, const Json& op, int)
 
 static void op_append_h(Exec& x, const Json& op, int)
 {
-	std::string rel = x.pick_file(op.num("d"), op.num("f"));
+	std::string rel = sel(x, op);
 	if (rel.empty()) return;
 	Bytes b;
 	x.sb.get_file(rel, b);
@@ -267,7 +279,7 @@ static void op_append_h(Exec& x, const Json& op, int)
 
 static void op_truncate_h(Exec& x, const Json& op, int)
 {
-	std::string rel = x.pick_file(op.num("d"), op.num("f"));
+	std::string rel = sel(x, op);
 	if (rel.empty()) return;
 	Bytes b;
 	x.sb.get_file(rel, b);
@@ -281,9 +293,19 @@ static void op_truncate_h(Exec& x, const Json& op, int)
 
 static void op_delete_h(Exec& x, const Json& op, int)
 {
-	std::string rel = x.pick_file(op.num("d"), op.num("f"));
+	std::string rel = sel(x, op);
 	if (rel.empty()) return;
 	struct stat st;
+	{
+		Bytes b;
+		uint64_t sz; int64_t ms, mns;
+		if (x.sb.get_file(rel, b) && x.sb.stat_file(rel, sz, ms, mns)) {
+			x.vars["last_deleted_rel"] = Json(rel);
+			x.vars["last_deleted_bytes"] = Json(b);
+			x.vars["last_deleted_s"] = Json(ms);
+			x.vars["last_deleted_ns"] = Json(mns);
+		}
+	}
 	// an inode number can only be reused once its last name is gone
 	if (lstat(x.sb.abs(rel).c_str(), &st) == 0) x.vars["last_deleted_vino"] = Json((uint64_t)(st.st_nlink <= 1 ? sim_vino_peek(st.st_ino) : 0));
 	x.sb.remove_path(rel);
@@ -291,7 +313,7 @@ static void op_delete_h(Exec& x, const Json& op, int)
 
 static void op_rename_h(Exec& x, const Json& op, int)
 {
-	std::string rel = x.pick_file(op.num("d"), op.num("f"));
+	std::string rel = sel(x, op);
 	if (rel.empty()) return;
 	std::string top = x.disk_top(op.has("d2") ? op.num("d2") : op.num("d"));
 	std::string to = content_guard(x, top + "/" + op.str("name"));
@@ -319,7 +341,7 @@ static void op_rename_h(Exec& x, const Json& op, int)
 
 static void op_copy_h(Exec& x, const Json& op, int)
 {
-	std::string rel = x.pick_file(op.num("d"), op.num("f"));
+	std::string rel = sel(x, op);
 	if (rel.empty()) return;
 	std::string top = x.disk_top(op.num("d2"));
 	std::string name = op.str("name");
@@ -344,10 +366,30 @@ static void op_copy_h(Exec& x, const Json& op, int)
 	x.sb.put_file(to, b, s, ns, true);
 }
 
+// put the last deleted file back (from the trash / a backup): same bytes, old or new stamp, same or another name
+static void op_undelete_h(Exec& x, const Json& op, int)
+{
+	if (!x.vars.count("last_deleted_rel") || x.vars["last_deleted_rel"].s.empty()) return;
+	std::string rel = x.vars["last_deleted_rel"].s;
+	if (op.has("name")) rel = rel.substr(0, rel.find('/')) + "/" + op.str("name");
+	struct stat st;
+	if (lstat(x.sb.abs(rel).c_str(), &st) == 0) return;
+	{
+		size_t p = rel.find('/');
+		while ((p = rel.find('/', p + 1)) != std::string::npos)
+			if (lstat(x.sb.abs(rel.substr(0, p)).c_str(), &st) == 0 && !S_ISDIR(st.st_mode)) return;
+	}
+	int64_t s = x.vars["last_deleted_s"].i, ns = x.vars["last_deleted_ns"].i;
+	if (op.num("new_stamp")) x.sb.next_stamp(s, ns);
+	x.sb.put_file(rel, x.vars["last_deleted_bytes"].s, s, ns, true);
+	x.vars["last_deleted_rel"] = Json(std::string());
+	x.probe("undeleted");
+}
+
 // same bytes, same stamp, new inode (restore from a backup with cp -p)
 static void op_reinode_h(Exec& x, const Json& op, int)
 {
-	std::string rel = x.pick_file(op.num("d"), op.num("f"));
+	std::string rel = sel(x, op);
 	if (rel.empty()) return;
 	struct stat st;
 	if (lstat(x.sb.abs(rel).c_str(), &st) != 0 || st.st_nlink > 1) return;
@@ -359,9 +401,21 @@ static void op_reinode_h(Exec& x, const Json& op, int)
 	x.sb.put_file(rel, b, s, ns, true);
 }
 
+// rewrite the very same bytes: new stamp, optionally new inode
+static void op_sametouch_h(Exec& x, const Json& op, int)
+{
+	std::string rel = sel(x, op);
+	if (rel.empty()) return;
+	Bytes b;
+	x.sb.get_file(rel, b);
+	int64_t s, ns;
+	x.sb.next_stamp(s, ns);
+	x.sb.put_file(rel, b, s, ns, op.num("new_inode") != 0);
+}
+
 static void op_touch_h(Exec& x, const Json& op, int)
 {
-	std::string rel = x.pick_file(op.num("d"), op.num("f"));
+	std::string rel = sel(x, op);
 	if (rel.empty()) return;
 	int64_t s, ns;
 	x.sb.next_stamp(s, ns, op.num("zns") != 0);
@@ -384,7 +438,7 @@ static void op_symlink_h(Exec& x, const Json& op, int)
 
 static void op_hardlink_h(Exec& x, const Json& op, int)
 {
-	std::string target = x.pick_file(op.num("d"), op.num("f"));
+	std::string target = sel(x, op);
 	if (target.empty()) return;
 	std::string rel = content_guard(x, x.disk_top(op.num("d")) + "/" + op.str("name"));
 	if (rel.empty() || rel == target) return;
@@ -439,6 +493,19 @@ static void op_cmd_h(Exec& x, const Json& op, int)
 
 static void op_mark_synced_h(Exec& x, const Json&, int) { x.mark_synced(); }
 
+// start a hash migration: 'rehash' run with the other hash kind as the preferred one; later commands prefer it too
+static void op_rehash_h(Exec& x, const Json& op, int)
+{
+	CmdSpec s;
+	s.cmd = "rehash";
+	s.no_hash_opt = true;
+	char other = x.sb.cfg.hash == 'u' ? 'k' : 'u';
+	s.opts = { other == 'u' ? "--test-force-murmur3" : "--test-force-spooky2" };
+	s.sched_seed = (uint64_t)op.num("seed", 1);
+	CmdResult r = x.cmd(s);
+	if (r.exit_code == 0) { x.sb.cfg.hash = other; x.probe("hash_migration_started"); }
+}
+
 static struct RegisterGeneric {
 	RegisterGeneric()
 	{
@@ -451,6 +518,8 @@ static struct RegisterGeneric {
 		Exec::register_op("copy", op_copy_h);
 		Exec::register_op("touch", op_touch_h);
 		Exec::register_op("reinode", op_reinode_h);
+		Exec::register_op("sametouch", op_sametouch_h);
+		Exec::register_op("undelete", op_undelete_h);
 		Exec::register_op("symlink", op_symlink_h);
 		Exec::register_op("hardlink", op_hardlink_h);
 		Exec::register_op("mkdir", op_mkdir_h);
@@ -458,6 +527,7 @@ static struct RegisterGeneric {
 		Exec::register_op("clock", op_clock_h);
 		Exec::register_op("cmd", op_cmd_h);
 		Exec::register_op("mark_synced", op_mark_synced_h);
+		Exec::register_op("rehash", op_rehash_h);
 	}
 } register_generic;
 
@@ -610,5 +680,87 @@ std::vector<Json> gen_mutations(Rng& rng, const Config& cfg, int n, bool odd)
 		}
 		v.push_back(o);
 	}
+	return v;
+}
+
+// Idioms: short scripted fragments with explicit names that reach states the uniform mutation mix rarely produces:
+// copies detected by name+size+stamp (REP blocks) left pending by a partial sync and then disturbed, moves, same-size rewrites.
+std::vector<Json> gen_idiom(Rng& rng, const Config& cfg, int tag)
+{
+	std::vector<Json> v;
+	unsigned bs = cfg.block_size();
+	if (rng.chance(1, 3)) {
+		// a deletion (or replacement) half processed by a sync that did not get to save its final state, then undone by the user
+		int64_t d = (int64_t)rng.below(cfg.disks.size());
+		std::string name = strf("idiom%d/gone", tag);
+		uint64_t size = rng.range(1, 5) * bs + (rng.chance(1, 2) ? 0 : rng.range(1, bs - 1));
+		v.push_back(Json::obj().set("k", "create").set("d", d).set("name", name).set("size", size).set("seed", rng.next() >> 1));
+		CmdSpec s;
+		s.cmd = "sync";
+		s.opts = { "-E", "-Z" };
+		v.push_back(op_cmd(gen_sched(rng, s)));
+		v.push_back(Json::obj().set("k", "delete").set("d", d).set("sub", name));
+		CmdSpec k;
+		k.cmd = "sync";
+		k.opts = { "-E", "-Z" };
+		switch (rng.below(3)) {
+		case 0: k.opts.push_back("--test-kill-after-sync"); break;
+		case 1: k.opts.push_back("-B"); k.opts.push_back(strf("%d", (int)rng.range(1, 4))); break;
+		default: break;
+		}
+		v.push_back(op_cmd(gen_sched(rng, k)));
+		Json u = Json::obj().set("k", "undelete").set("new_stamp", (int)rng.below(2));
+		if (rng.chance(1, 2)) u.set("name", name + ".back");
+		v.push_back(u);
+		return v;
+	}
+	int64_t d = (int64_t)rng.below(cfg.disks.size());
+	int64_t d2 = (int64_t)rng.below(cfg.disks.size());
+	std::string name = strf("idiom%d/%s", tag, rng.chance(1, 2) ? "src" : "s r:c");
+	auto partial = [&]() {
+		CmdSpec s;
+		s.cmd = "sync";
+		switch (rng.below(4)) {
+		case 0: s.opts = { "-B", strf("%d", (int)rng.range(1, 3)) }; break;
+		case 1: s.opts = { "-S", strf("%d", (int)rng.range(1, 6)), "-B", strf("%d", (int)rng.range(1, 4)) }; break;
+		case 2: s.opts = { "--test-kill-after-sync" }; break;
+		default: s.opts = { "-B", "1", "--test-io-cache", "1" }; break;
+		}
+		return op_cmd(gen_sched(rng, s));
+	};
+	auto full = [&]() {
+		CmdSpec s;
+		s.cmd = "sync";
+		s.opts = { "-E", "-Z" };
+		return op_cmd(gen_sched(rng, s));
+	};
+	uint64_t size = rng.range(1, 6) * bs + (rng.chance(1, 2) ? 0 : rng.range(1, bs - 1));
+	v.push_back(Json::obj().set("k", "create").set("d", d).set("name", name).set("size", size).set("seed", rng.next() >> 1).set("zns", (int)rng.chance(1, 4)));
+	v.push_back(full());
+	switch (rng.below(3)) {
+	case 0: // cp -p to another disk under the same path
+		v.push_back(Json::obj().set("k", "copy").set("d", d).set("sub", name).set("d2", d2).set("name", name));
+		break;
+	case 1: // cp -p under another name in the same disk
+		v.push_back(Json::obj().set("k", "copy").set("d", d).set("sub", name).set("d2", d).set("name", name + ".copy"));
+		d2 = d;
+		name += ".copy";
+		break;
+	default: // move across disks keeping the stamp
+		v.push_back(Json::obj().set("k", "rename").set("d", d).set("sub", name).set("d2", d2).set("name", name));
+		break;
+	}
+	v.push_back(rng.chance(3, 4) ? partial() : full());
+	// disturb the copy while (some of) its blocks are still pending
+	switch (rng.below(7)) {
+	case 0: v.push_back(Json::obj().set("k", "touch").set("d", d2).set("sub", name)); break;
+	case 1: v.push_back(Json::obj().set("k", "reinode").set("d", d2).set("sub", name)); break;
+	case 2: v.push_back(Json::obj().set("k", "overwrite").set("d", d2).set("sub", name).set("size", size).set("seed", rng.next() >> 1).set("new_inode", (int)rng.below(2))); break;
+	case 3: v.push_back(Json::obj().set("k", "delete").set("d", d2).set("sub", name)); break;
+	case 4: v.push_back(Json::obj().set("k", "rename").set("d", d2).set("sub", name).set("name", name + ".moved")); break;
+	case 5: v.push_back(Json::obj().set("k", "sametouch").set("d", d2).set("sub", name)); break;
+	default: break;
+	}
+	if (rng.chance(1, 3)) v.push_back(partial());
 	return v;
 }
